@@ -44,11 +44,12 @@ func loadKnown(path string) ([]KnownFinding, error) {
 }
 
 type nativeResult struct {
-	Harness  string   `json:"harness"`
-	Outcome  string   `json:"outcome"`
-	Panic    string   `json:"panic,omitempty"`
-	Observes []string `json:"observes"`
-	AllocB   uint64   `json:"alloc_bytes,omitempty"`
+	Harness    string   `json:"harness"`
+	Outcome    string   `json:"outcome"`
+	Panic      string   `json:"panic,omitempty"`
+	Observes   []string `json:"observes"`
+	AllocBytes uint64   `json:"alloc_bytes,omitempty"`
+	OverAlloc  bool     `json:"over_alloc,omitempty"` // allocated more than the harness's AllocLimit
 }
 
 // Native builds and runs harnesses natively against the real library (overlay, no repo changes).
@@ -272,10 +273,14 @@ func cmdCheck(args []string) int {
 		fmt.Fprintln(os.Stderr, "INCONCLUSIVE: no harness for", *prop)
 		return 2
 	}
-	budget := 240 * time.Second
+	// Deadlines are a safety net, not a target: a check that reaches one is INCONCLUSIVE (exit 2).
+	// The registered bounds finish in well under a third of them on the 16-core sandbox (quick:
+	// C17 ≈ 200 s, all others ≤ 90 s), so a slower or busier machine does not turn a clean run
+	// into an inconclusive one.
+	budget := 15 * time.Minute
 	maxPaths := 60000
 	if *tier == "thorough" {
-		budget = 40 * time.Minute
+		budget = 100 * time.Minute
 		maxPaths = 3000000
 	}
 	cfg := &RunCfg{MaxInstrs: 80_000_000, MaxPaths: maxPaths, Deadline: time.Now().Add(budget), Workers: *workers, SolverMs: 60000, Tier: *tier, Seed: seed}
@@ -450,6 +455,9 @@ func cmdCheck(args []string) int {
 					validated++
 				} else if f.Kind == "alloc" && res[0].Outcome == "panic" {
 					f.Replayed = "confirmed (native run panics: " + res[0].Panic + ")"
+					validated++
+				} else if f.Kind == "alloc" && res[0].OverAlloc {
+					f.Replayed = fmt.Sprintf("confirmed (native run allocated %d bytes, above the limit)", res[0].AllocBytes)
 					validated++
 				} else {
 					f.Replayed = "NOT confirmed: native outcome " + res[0].Outcome
@@ -755,7 +763,7 @@ func cmdReplay(args []string) int {
 		fmt.Printf("native run produced no result: %s\n", status)
 	}
 	fmt.Printf("expected for the violation: %s\n", c.Expect)
-	if got == c.Expect || (c.Expect == "alloc" && got == "panic") {
+	if got == c.Expect || (c.Expect == "alloc" && (got == "panic" || (res[0] != nil && res[0].OverAlloc))) {
 		fmt.Println("REPRODUCED")
 		return 1
 	}
